@@ -209,6 +209,56 @@ class Gen:
                 nid = s.next_id; s.next_id += 1
             s.nodes.append({'kind': 's', 'id': nid})
 
+    def op_play(self):
+        # the play() entry point: a function or a Buffer becomes a temporary definition and a Synth object whose creation
+        # command travels as completion message; controls as list / tuple / dict, out bus as number or Bus object
+        r, s = self.r, self.s
+        k = r.random()
+        if k < 0.3:
+            args = vl(self.pairs(0, 3))
+        elif k < 0.45:
+            args = vt(self.pairs(0, 2))
+        elif k < 0.8:
+            keys = r.sample(CTL_S, r.randint(0, 3))
+            args = vd([[vs(k_), self.scalar()] for k_ in keys])
+            self.tags.add('play-dict-args')
+        else:
+            args = self.ctl_dict(1, 3)
+            self.tags.add('play-dict-args')
+        buses = s.live_buses()
+        ob = {'v': 'bus', 'i': r.choice(buses)} if buses and r.random() < 0.3 else vi(r.choice([0, 0, 1, 2, 16]))
+        op = {'op': 'play', 'kind': 'func', 'args': args, 'outbus': ob, 'fade': r.choice([0.02, 0]),
+              'action': r.choice(ACTIONS), 'target': self.target()}
+        bs = [i for i in s.live_bufs() if s.bufs[i].get('ch') in (1, 2) and s.bufs[i].get('alloc', True)]
+        if bs and r.random() < 0.3:
+            op.update({'kind': 'buf', 'b': r.choice(bs), 'loop': r.random() < 0.5})
+            del op['target']
+        self.emit(op)
+        if not self.last_raises:
+            s.nodes.append({'kind': 's', 'id': s.next_id}); s.next_id += 1
+        self.tags.add('play')
+
+    def op_big_block(self):
+        # a bind() block of medium / large size: tens to hundreds of commands, 1 .. 30 KB of OSC, still one datagram
+        # (at most 450 commands of < 100 bytes on average: far below the 65504-byte datagram limit and the runner's packet budget)
+        r, s = self.r, self.s
+        n = r.choice([30, 100, 200, 300, 450])
+        self.emit({'op': 'bind_enter'})
+        s.depth += 1
+        for _ in range(n):
+            w = r.random()
+            if w < 0.45:
+                self.op_synth()
+            elif w < 0.5:
+                self.op_group()
+            elif w < 0.9:
+                self.op_node_cmd()
+            else:
+                self.op_bus()
+        self.emit({'op': 'bind_exit'})
+        s.depth -= 1
+        self.tags.add('bind'); self.tags.add('big-bind-block')
+
     def op_group(self):
         r, s = self.r, self.s
         ctor = r.choice(['init'] * 5 + ['after', 'before', 'head', 'tail', 'replace'])
@@ -669,7 +719,12 @@ class Gen:
             if s.depth == 0 and not self.sync and r.random() < 0.012:
                 self.op_buf_stream()
                 continue
-            if w < 0.16:
+            if self.cls == 'valid' and s.depth == 0 and r.random() < 0.003:
+                self.op_big_block()
+                continue
+            if w < 0.02 and self.cls == 'valid':
+                self.op_play()
+            elif w < 0.16:
                 self.op_synth()
             elif w < 0.22:
                 self.op_group()
